@@ -24,25 +24,30 @@ def pickEach : List (List Nat) → List (List Nat)
 
 /-! ### the choice: ODE / stationary -/
 
+section choice
+/- residual values: exact rationals in the checks; any ordered type here, so that the clauses can
+   also be evaluated by `decide` on integers -/
+variable {κ : Type} [LE κ] [DecidableLE κ] [Inhabited κ]
+
 /-- `chosen` is a set of `sel` distinct candidates whose residuals dominate all the others. -/
-def topCheck (sel : Nat) (res : List Rat) (chosen : List Nat) : Option String :=
+def topCheck (sel : Nat) (res : List κ) (chosen : List Nat) : Option String :=
   if chosen.length != sel then some "chosen-count"
   else if !chosen.all (fun c => decide (c < res.length)) then some "chosen-not-a-candidate"
   else if !nodupB chosen then some "chosen-not-distinct"
   else if !chosen.all (fun c => (List.range res.length).all (fun d =>
-      chosen.contains d || decide (res.getD d 0 ≤ res.getD c 0))) then some "chosen-not-largest-residuals"
+      chosen.contains d || decide (res.getD d default ≤ res.getD c default))) then some "chosen-not-largest-residuals"
   else none
 
 /-! ### the choice: product domains -/
 
 /-- `top` (flat indices, row-major in an `nT × nX` table) are `k` distinct pairs, by decreasing
     residual, dominating all other pairs -/
-def topPairsOk (flat : List Rat) (k : Nat) (top : List Nat) : Bool :=
+def topPairsOk (flat : List κ) (k : Nat) (top : List Nat) : Bool :=
   top.length == k && top.all (fun f => decide (f < flat.length)) && nodupB top &&
   top.all (fun c => (List.range flat.length).all (fun d =>
-      top.contains d || decide (flat.getD d 0 ≤ flat.getD c 0))) &&
+      top.contains d || decide (flat.getD d default ≤ flat.getD c default))) &&
   (List.range top.length).all (fun a => (List.range top.length).all (fun b =>
-      !decide (a < b) || decide (flat.getD (top.getD b 0) 0 ≤ flat.getD (top.getD a 0) 0)))
+      !decide (a < b) || decide (flat.getD (top.getD b 0) default ≤ flat.getD (top.getD a 0) default)))
 
 /-- admissible flat indices at rank `r`: the observed row for `r < selT`, the observed column for
     `r < selX` -/
@@ -53,7 +58,7 @@ def admissible (nT nX selT selX : Nat) (tIdx xIdx : List Nat) (r : Nat) : List N
 
 /-- the time indices are the rows of the best `selT` pairs and the space indices the columns of the
     best `selX` pairs, for some list of the `max selT selX` best pairs (ties: any such list). -/
-def pairsCheck (mse : List (List Rat)) (nX selT selX : Nat) (tIdx xIdx : List Nat) : Option String :=
+def pairsCheck (mse : List (List κ)) (nX selT selX : Nat) (tIdx xIdx : List Nat) : Option String :=
   let nT := mse.length
   let flat := mse.flatten
   let k := max selT selX
@@ -65,6 +70,8 @@ def pairsCheck (mse : List (List Rat)) (nX selT selX : Nat) (tIdx xIdx : List Na
     let cands := pickEach ((List.range k).map (admissible nT nX selT selX tIdx xIdx))
     if cands.any (fun top => topPairsOk flat k top) then none
     else some "chosen-not-largest-residuals"
+
+end choice
 
 /-! ### the stores -/
 
